@@ -26,11 +26,11 @@ func (s *viewSvc) List(context.Context) (svc.OuterCollection, string, error) {
 func (s *viewSvc) Fixed(context.Context) (*svc.Outer, error) { return s.res, nil }
 
 func symOuter() *svc.Outer {
-	o := &svc.Outer{A: nondetStringUpTo("a", 2)}
+	o := &svc.Outer{A: nondetStringUpTo("a", deep(2))}
 	if nondetBool("b-set") {
-		o.B = &svc.Inner{C: nondetStringUpTo("c", 1), D: nondetInt("d")}
+		o.B = &svc.Inner{C: nondetStringUpTo("c", deep(1)), D: nondetInt("d")}
 		if nondetBool("e-set") {
-			e := nondetStringUpTo("e", 1)
+			e := nondetStringUpTo("e", deep(1))
 			o.B.E = &e
 		}
 	}
@@ -139,7 +139,7 @@ func VerifC08_w1_get() {
 // VerifC08_w1_undefined_view: a response labelled with a view the type does
 // not define is refused by the client.
 func VerifC08_w1_undefined_view() {
-	label := nondetStringUpTo("label", 7)
+	label := nondetStringUpTo("label", deep(7))
 	verifAssume(visible(label))
 	verifAssume(label != "default" && label != "tiny" && label != "")
 	a := "a"
